@@ -24,6 +24,40 @@ def run():
                       "creation, sibling call, nesting), recursion depths 0..3, receiver/anonymous-chain/index-then-call, zero-argument \\\\0; plus seeded "
                       "random nested programs with a probe after every statement. non-trivial = accepted runs in which a probe fired inside a call "
                       "(>= 2 frames visible)")
+    # ---- the same scoping when the program is typed into the REPL: one session scope, whatever the grouping of statements into inputs
+    defs = [("f := {|| x}", "f()"), ("o := {m: m{x}}", "o.m"), ("f := {|a| x + a}", "f(10)"), ("g := {|| {|| x}}", "g()()"), ("h := {|| x += 1; x}", "[h(), x]"),
+            ("k := {|x| {|| x}}(x)", "k()")]
+    reassigns = ["x := 2", "x += 5", "7 => x", "x := x * 3; y := x"]
+    sessions = []
+    for d, use in defs:
+        for r in reassigns:
+            stmts = ["x := 1", d, r, use, "x"]
+            for grouping in ([[0], [1], [2], [3], [4]], [[0, 1], [2], [3], [4]], [[0], [1, 2], [3, 4]], [[0, 1, 2], [3], [4]], [[0, 1], [2, 3], [4]], [[0, 1, 2, 3, 4]]):
+                for multi in (False, True):
+                    chunks = ["; ".join(stmts[i] for i in g) for g in grouping]
+                    if multi:      # multi-line mode: each input is a block of lines
+                        lines = ["multi"] + [l for g in grouping for l in [stmts[i] for i in g] + [""]]
+                        chunks = [""] + ["".join(stmts[i] + "\n" for i in g) for g in grouping]
+                    else:
+                        lines = chunks
+                    sessions.append((lines, chunks))
+    rreqs = [{"id": f"q{k}", "mode": "repl", "stdin": "".join(l + "\n" for l in ls), "fuel": 100000, "deadline_ms": 5000} for k, (ls, _) in enumerate(sessions)]
+    rreqs += [{"id": f"h{k}", "mode": "replchunks", "progs": ch, "fuel": 100000, "deadline_ms": 5000} for k, (_, ch) in enumerate(sessions)]
+    from pvlib import run_cases
+    rout = run_cases(rreqs, label="C03 repl")
+    nrepl = 0
+    for k, (ls, ch) in enumerate(sessions):
+        o, h = rout[f"q{k}"], rout[f"h{k}"]
+        if o["end"] != "exit:0" or h["end"] != "ok":
+            continue
+        text = o["events"][0][3:]
+        body = text[text.index(">>> "):]
+        want = ">>> " + "".join(e[3:] + (">>> " if ls[0] != "multi" else "<< multi-line mode (read lines until empty line is found) >>\n") for e in h["events"])
+        nrepl += 1
+        if body != want:
+            ck.reject(f"C03:repl:{ls[1 if ls[0] == 'multi' else 0][:12]}", f"typed into the REPL as {ls!r} the session prints {body!r}; evaluated in one scope the inputs give {want!r}",
+                      {"lines": ls, "observed": body, "expected": want})
+    ck.cov["repl_sessions"] = nrepl
     ck.assumptions = ["probe(k)/say(x) are harness built-ins injected into the global scope; they receive the caller's environment",
                       "programs outside the PanEval fragment (status unsupported) are discarded, not judged"]
     if st1["ok"] + st1["mismatch"] < len(fam) * 0.9:
